@@ -530,7 +530,17 @@ def run(facts, cg):
                             zero_edges.add((cbi, sw['targets'][sw['vals'].index(0)] if 0 in sw['vals'] else sw['otherwise']))
                     if not guarded and zero_edges and not _reachable_without_edges(b, zero_edges, bi):
                         guarded = True      # behind the union of several such edges (`Some(left) if left > 0 => .., _ => drop`)
-                    instances.append({'rule': 'R-RUNS(one-request-per-run)', 'function': b.q, 'request_field': holder, 'dropped_at': st['loc'], 'guarded_by_run_counter': guarded})
+                    # ... and what is left in the receive buffer goes with it (a server may send more than the range it was asked for;
+                    # the surplus is not the first chunk of the next run)
+                    clears_ = {cbi for cbi, ct_ in b.calls() if 'q' in ct_['callee'] and callee_q(ct_).startswith('bytes::bytes_mut::BytesMut::') and
+                               callee_q(ct_).split('::')[-1] in ('clear', 'split')}
+                    emptied = bi in clears_ or any(cb in dom.get(bi, ()) and not _reachable_without_edges(b, set(), cb) is False and _all_paths_hit(b, cb, {bi}) for cb in clears_) \
+                        or _all_paths_hit(b, bi, clears_)
+                    instances.append({'rule': 'R-RUNS(one-request-per-run)', 'function': b.q, 'request_field': holder, 'dropped_at': st['loc'], 'guarded_by_run_counter': guarded,
+                                      'buffer_emptied_with_it': emptied})
+                    if not emptied:
+                        finding('R-RUNS', b.q, 'dropped-with-surplus', 'the request of a finished run is given up at %s while the receive buffer keeps what the server sent beyond it: '
+                                'the surplus is handed out as the first chunk of the next run, for which no request is made' % st['loc'])
                     if not guarded:
                         finding('R-RUNS', b.q, 'request-dropped-early', 'the range request in flight is given up at %s without the count of chunks it still covers having '
                                 'reached zero: adjacent chunks are no longer fetched with one request' % st['loc'])
